@@ -67,6 +67,22 @@ func (r *cliRepo) run(stdin []byte, args ...string) (string, error) {
 	return out.String(), nil
 }
 
+// RunCLI executes one wrgl command in this process (entry point of `vcheck cli`).
+func RunCLI(wrglDir, home string, args []string) int {
+	os.Setenv("HOME", home)
+	os.Setenv("XDG_CONFIG_HOME", filepath.Join(home, ".config"))
+	viper.Set("wrgl_dir", wrglDir)
+	cmd := wrgl.RootCmd()
+	cmd.SetOut(os.Stdout)
+	cmd.SetErr(os.Stderr)
+	cmd.SetArgs(args)
+	if err := cmd.Execute(); err != nil {
+		fmt.Fprintln(os.Stderr, err)
+		return 1
+	}
+	return 0
+}
+
 func (r *cliRepo) writeFile(name string, b []byte) (string, error) {
 	p := filepath.Join(r.root, name)
 	return p, os.WriteFile(p, b, 0644)
